@@ -14,6 +14,18 @@ thread_local! {
 
 pub struct CountingAlloc;
 
+/// A thread that holds more than this many live bytes gets no more memory: the allocation fails, which aborts the
+/// process (Rust cannot unwind from a failed allocation) and is reported through the abnormal-termination path of
+/// the check script with the run that caused it. Without the cap a library that amplifies its input without bound
+/// would take the whole machine down (OOM killer) before anything could be reported. The largest legitimate peak of
+/// a run is below 100 MiB.
+pub const HARD_CAP_PER_THREAD: usize = 2 << 30;
+
+#[inline]
+fn over_cap(extra: usize) -> bool {
+    LIVE.try_with(|l| l.get().saturating_add(extra) > HARD_CAP_PER_THREAD).unwrap_or(false)
+}
+
 #[inline]
 fn add(n: usize) {
     let _ = LIVE.try_with(|l| {
@@ -35,6 +47,9 @@ fn sub(n: usize) {
 
 unsafe impl GlobalAlloc for CountingAlloc {
     unsafe fn alloc(&self, layout: Layout) -> *mut u8 {
+        if over_cap(layout.size()) {
+            return std::ptr::null_mut();
+        }
         let p = System.alloc(layout);
         if !p.is_null() {
             add(layout.size());
@@ -46,6 +61,9 @@ unsafe impl GlobalAlloc for CountingAlloc {
         sub(layout.size());
     }
     unsafe fn alloc_zeroed(&self, layout: Layout) -> *mut u8 {
+        if over_cap(layout.size()) {
+            return std::ptr::null_mut();
+        }
         let p = System.alloc_zeroed(layout);
         if !p.is_null() {
             add(layout.size());
@@ -53,6 +71,9 @@ unsafe impl GlobalAlloc for CountingAlloc {
         p
     }
     unsafe fn realloc(&self, ptr: *mut u8, layout: Layout, new_size: usize) -> *mut u8 {
+        if new_size > layout.size() && over_cap(new_size - layout.size()) {
+            return std::ptr::null_mut();
+        }
         let p = System.realloc(ptr, layout, new_size);
         if !p.is_null() {
             if new_size >= layout.size() {
